@@ -1,6 +1,6 @@
 """Which units decide which property (DESIGN.md sections 1, 5)."""
 
-VERUS_UNITS = ['U-FMT', 'U-REACH', 'U-COMPACTAS', 'U-SANITY', 'U-RESOLVE', 'U-CONTAINS', 'U-CALLS', 'U-DESCR', 'U-DERIVES']
+VERUS_UNITS = ['U-FMT', 'U-REACH', 'U-COMPACTAS', 'U-SANITY', 'U-RESOLVE', 'U-CONTAINS', 'U-CALLS', 'U-DESCR', 'U-DERIVES', 'U-MIXED']
 
 PROPS = {
     'C15': {
@@ -35,7 +35,7 @@ PROPS = {
     },
     'C10': {
         'level': 'proof',
-        'verus': ['U-SANITY', 'U-RESOLVE', 'U-CALLS'],
+        'verus': ['U-SANITY', 'U-RESOLVE', 'U-CALLS', 'U-MIXED'],
         'kani': ['sanity_pass_upto4'],
         'trusted_base': ['Verus 0.2026.09.13, Z3, rustc 1.98.1'],
         'assumptions': [
@@ -43,7 +43,7 @@ PROPS = {
         ],
         'not_covered': [
             'everything generate_types_mod and ensure_unique_type_paths do AFTER their sanity_pass(..)? line (abstracted by rule R8)',
-            'mixed named/unnamed fields check (create_composite_ir_kind), compact / decoded-bits path presence (resolve_type_path_recurse): reach syn/proc_macro2',
+            'everything create_composite_ir_kind does after the mixed-fields check (abstracted by rule R8); compact / decoded-bits path presence (resolve_type_path_recurse): reach syn/proc_macro2',
             'propagation of TypeNotFound through resolve_type_path_recurse',
             '"never panics on well-formed registries": whole-program statement over token-producing functions',
         ],
